@@ -213,7 +213,7 @@ def run(ctx):
 
 MODULE_BUS = "Dbus.Props.C07Bus"
 THEOREMS_BUS = ["recipient_iff", "recipients_nodup", "gate_broadcast_pending", "broadcast_reaches_exactly_the_matching",
-                "disconnected_gets_nothing"]
+                "disconnected_gets_nothing", "sender_rule_needs_the_owner", "waiter_does_not_match_sender_rule", "destination_rule_needs_the_owner"]
 W_BUS = {"addmatch": 22, "removematch": 8, "signal": 30, "call": 8, "reply": 2, "request": 10, "release": 3, "close": 4, "connect": 5,
          "hello": 5, "forged": 2, "query": 1, "driver_edge": 0, "nodest": 0, "badtype": 0, "garbage": 0}
 SIMPLE = re.compile(rb"^(?:[a-z0-9_]+='[^'\\]*')(?:,[a-z0-9_]+='[^'\\]*')*$")
